@@ -15,6 +15,8 @@ pub struct ChunkReader {
     chunks: std::collections::VecDeque<Option<Vec<u8>>>,
     pub transient: std::rc::Rc<std::cell::Cell<bool>>,
     fail: bool,
+    /// the kind of the persistent error at the end of the script
+    pub fail_kind: io::ErrorKind,
     reads: usize,
     max_reads: usize,
 }
@@ -31,6 +33,7 @@ impl ChunkReader {
             chunks: chunks.into_iter().filter(|c| c.as_ref().map(|c| !c.is_empty()).unwrap_or(true)).collect(),
             transient: Default::default(),
             fail,
+            fail_kind: io::ErrorKind::Other,
             reads: 0,
             // every read before the end makes progress, so this many reads mean a hang
             max_reads: total + n + 64,
@@ -45,7 +48,7 @@ impl ChunkReader {
         match self.chunks.pop_front() {
             None => {
                 if self.fail {
-                    Err(io::Error::new(io::ErrorKind::Other, "scripted failure"))
+                    Err(io::Error::new(self.fail_kind, "scripted failure"))
                 } else {
                     Ok(Vec::new())
                 }
@@ -64,6 +67,28 @@ impl ChunkReader {
                 }
             }
         }
+    }
+}
+
+/// Writes go nowhere: the scripted peer does not react to them.
+impl io::Write for ChunkReader {
+    fn write(&mut self, buf: &[u8]) -> io::Result<usize> {
+        Ok(buf.len())
+    }
+    fn flush(&mut self) -> io::Result<()> {
+        Ok(())
+    }
+}
+
+impl tokio::io::AsyncWrite for ChunkReader {
+    fn poll_write(self: Pin<&mut Self>, _cx: &mut Context<'_>, buf: &[u8]) -> Poll<io::Result<usize>> {
+        Poll::Ready(Ok(buf.len()))
+    }
+    fn poll_flush(self: Pin<&mut Self>, _cx: &mut Context<'_>) -> Poll<io::Result<()>> {
+        Poll::Ready(Ok(()))
+    }
+    fn poll_shutdown(self: Pin<&mut Self>, _cx: &mut Context<'_>) -> Poll<io::Result<()>> {
+        Poll::Ready(Ok(()))
     }
 }
 
@@ -124,6 +149,9 @@ pub fn show_response(r: &Response) -> String {
 pub fn show_error(e: &MpdProtocolError) -> String {
     match e {
         MpdProtocolError::InvalidMessage => "invalid".into(),
+        // an error of the transport is passed through whatever its kind; only the connection's own "stream ended inside a
+        // response" counts as ueof
+        MpdProtocolError::Io(e) if e.to_string().contains("scripted") => "io".into(),
         MpdProtocolError::Io(e) if e.kind() == io::ErrorKind::UnexpectedEof => "ueof".into(),
         MpdProtocolError::Io(_) => "io".into(),
     }
@@ -144,15 +172,30 @@ pub fn run(toks: &[&str]) -> String {
     let with_greeting = toks[0] == "recv";
     let flavour = toks[1];
     let extra: usize = toks[2].parse().unwrap_or(0);
-    let fail = toks[3] == "err";
+    let fail = toks[3].starts_with("err");
+    let fail_kind = match toks[3].strip_prefix("err:").unwrap_or("other") {
+        "ueof" => io::ErrorKind::UnexpectedEof,
+        "reset" => io::ErrorKind::ConnectionReset,
+        "aborted" => io::ErrorKind::ConnectionAborted,
+        "brokenpipe" => io::ErrorKind::BrokenPipe,
+        "timedout" => io::ErrorKind::TimedOut,
+        "invaliddata" => io::ErrorKind::InvalidData,
+        "notconnected" => io::ErrorKind::NotConnected,
+        "interrupted" => io::ErrorKind::Interrupted,
+        "oom" => io::ErrorKind::OutOfMemory,
+        _ => io::ErrorKind::Other,
+    };
     let mut chunks: Vec<Option<Vec<u8>>> = Vec::new();
     if with_greeting {
         chunks.push(Some(GREETING.to_vec()));
     }
+    // "!s": after the interrupted receive the application sends a command before it retries
+    let send_between = toks[4..].iter().any(|h| *h == "!s");
     for h in &toks[4..] {
-        chunks.push(if *h == "!" { None } else { Some(unhex(h)) });
+        chunks.push(if *h == "!" || *h == "!s" { None } else { Some(unhex(h)) });
     }
-    let reader = ChunkReader::with_interruptions(chunks, fail);
+    let mut reader = ChunkReader::with_interruptions(chunks, fail);
+    reader.fail_kind = fail_kind;
     let transient = reader.transient.clone();
     let res = catch(move || {
         let mut out: Vec<String> = Vec::new();
@@ -170,6 +213,9 @@ pub fn run(toks: &[&str]) -> String {
                 out.push(s);
                 if !more {
                     if transient.replace(false) {
+                        if send_between {
+                            let _ = conn.send(mpd_protocol::command::Command::new("ping"));
+                        }
                         continue;
                     }
                     if left == 0 {
@@ -194,6 +240,9 @@ pub fn run(toks: &[&str]) -> String {
                     out.push(s);
                     if !more {
                         if transient.replace(false) {
+                            if send_between {
+                                let _ = conn.send(mpd_protocol::command::Command::new("ping")).await;
+                            }
                             continue;
                         }
                         if left == 0 {
